@@ -1,7 +1,7 @@
 """C10 — rendering is pure: colours never change layout and output has no memory."""
 import ast
 
-from sa.core import (AnalysisError, FUNC, Module, assignments, call_name, class_attr, const, dotted, enclosing, enclosing_func,
+from sa.core import (caching_decorators, AnalysisError, FUNC, Module, assignments, call_name, class_attr, const, dotted, enclosing, enclosing_func,
                      enclosing_stmt, is_attr, is_name, is_self_attr, literal, norm, params, parent, walk_local, names_in, ancestors)
 from sa.guards import facts, enclosing_loops
 from rules.c14 import cache_rules
@@ -124,7 +124,8 @@ def run(cx):
                  ("R10f", "lazy result: guarded computation, iteration delegates, fields written only by the constructor"),
                  ("R10g", "whole text = newline-join of the generated lines"),
                  ("R10h", "line generators yield CHText objects"),
-                 ("R10i", "colours do not influence layout (non-interference)")):
+                 ("R10i", "colours do not influence layout (non-interference)"),
+                 ("R10j", "cached cell texts are never mutated in place by their consumers")):
         cx.rule(r, t)
 
     # ---------------- R10a
@@ -149,6 +150,15 @@ def run(cx):
         ok = _keeps_alive(site, key, f)
         cx.ob("R10a", key, ok, f"id({norm(key.args[0])}) keys {norm(cont)} and the entry keeps the object alive" if ok else
               f"id({norm(key.args[0])}) keys the long-lived container {norm(cont)} without keeping the object alive: after the object is discarded a new one at the same address reads the stale entry")
+    n_memo = 0
+    for m in repo.modules.values():
+        for f in [n for n in ast.walk(m.tree) if isinstance(n, FUNC)]:
+            for d in caching_decorators(f):
+                n_memo += 1
+                takes_pal = bool(set(params(f)) & PAL_NAMES) or m.rel in RENDER_MODULES or m.rel == REL
+                cx.ob("R10a", f, not takes_pal, f"`@{norm(d)}` on a function outside the rendering / colour modules" if not takes_pal else
+                      f"`@{norm(d)}` memoises a rendering / colour function: its output now depends on earlier calls (stale palettes, equal-comparing arguments)", stmt=f"def {f.name}(...) [decorators]")
+    cx.count("R10a:memoising decorators", n_memo)
     cx.ob("R10a", "ak/*, bin/*", True, f"{n_funcs} functions scanned, {len(found)} id()-keyed long-lived container accesses", construct="package", stmt="scan")
 
     # ---------------- R10b / R10d (shared with C14)
@@ -167,6 +177,8 @@ def run(cx):
     _r10h(cx, repo)
     # ---------------- R10i
     _r10i(cx, repo)
+    # ---------------- R10j
+    _r10j(cx, repo)
 
 
 # -------------------------------------------------------------------------------------------- R10c
@@ -642,3 +654,30 @@ def _r10i(cx, repo):
                 is_chunk = isinstance(inner, ast.Call) and isinstance(inner.func, ast.Attribute) and isinstance(inner.func.value, ast.Name) and inner.func.value.id in PAL_NAMES
                 if t == CH or is_chunk:
                     cx.ob("R10i", c, False, "a width is computed from str() of a coloured value (escape sequences are counted)")
+
+
+# -------------------------------------------------------------------------------------------- R10j
+def _r10j(cx, repo):
+    """PPEnumFieldType keeps pre-rendered chunk lists per palette; they reach FieldType.fit_to_width as its first argument.
+    Any in-place mutation of that argument (or of a value that may be the argument) makes later renderings depend on earlier ones."""
+    from sa.affine import WidthInterp, Path, CL, Lin
+    from rules.c12 import c_resize
+    fit = cx.func("ak/ppobj.py", "FieldType.fit_to_width", "R10j")
+    ps = params(fit)
+    it = WidthInterp(contracts={"resize_chunks_list": c_resize}, palette_names=(ps[3],), nonneg_syms=("L",))
+    it.run(fit.body, Path({ps[0]: CL(Lin.sym("L"), fresh=False), ps[1]: Lin.sym("width")}, it.base_facts()))
+    n = 0
+    for ob in it.side:
+        if ob.kind == "alias":
+            n += 1
+            cx.ob("R10j", ob.node, ob.ok, "mutates a list built in this call" if ob.ok else
+                  ob.detail + ": cached enum cell texts are passed in here, so the next rendering of the same value sees the modified list")
+    cx.at_least("R10j", "in-place list mutations in fit_to_width", n, 3)
+    # the cache itself is written only where it is filled
+    enum = cx.cls("ak/ppobj.py", "PPEnumFieldType", "R10j")
+    for f in [x for x in enum.body if isinstance(x, FUNC)]:
+        for c in walk_local(f):
+            if isinstance(c, ast.Call) and isinstance(c.func, ast.Attribute) and c.func.attr in ("append", "extend", "insert", "pop", "clear", "remove"):
+                base = norm(c.func.value)
+                if base.startswith("by_value_cache[") or base.startswith("self._cache"):
+                    cx.ob("R10j", c, False, f"a cached cell text is modified in place ({base}.{c.func.attr})")
